@@ -360,6 +360,7 @@ package goat
 //@   nopanic[C19.nopanic]
 //@   requires ws != nil && ws.conn != nil && ctx != nil
 //@   ensures[C19.ws_read_wellformed] (result.1 == nil) != (result.0 == nil)
+//@   ensures[C19.ws_read_waits_only_in_the_connection] ncalls("lock") == old(ncalls("lock"))
 //@   ensures[C19.ws_non_binary_rejected] bound("typ") && typ != 2 ==> result.1 != nil
 //@   ensures[C19.ws_conn_error_reported] bound("err") && aftercall("websocket.Conn).Read", true) && ncalls("google.golang.org/protobuf/proto.Unmarshal") == old(ncalls("google.golang.org/protobuf/proto.Unmarshal")) ==> result.1 != nil
 //@   atcall[C19.ws_decodes_what_was_read] google.golang.org/protobuf/proto.Unmarshal : arg0 == data
@@ -370,6 +371,7 @@ package goat
 //@   atcall[C19.ws_writes_binary_marshalled] (*github.com/coder/websocket.Conn).Write : arg1 == ctx && arg2 == 2 && arg3 == data
 //@   atcall[C19.ws_marshals_the_envelope] google.golang.org/protobuf/proto.Marshal : ifacePayload(arg0) == pkt
 //@   ensures[C19.ws_every_marshalled_envelope_is_written] bound("err") && lastret("protobuf/proto.Marshal").1 == nil ==> ncalls("(*github.com/coder/websocket.Conn).Write") == old(ncalls("(*github.com/coder/websocket.Conn).Write")) + 1 && result == lastret("websocket.Conn).Write")
+//@   ensures[C19.ws_write_waits_only_in_the_connection] ncalls("lock") == old(ncalls("lock"))
 //@   ensures[C19.ws_write_once] result == nil ==> ncalls("(*github.com/coder/websocket.Conn).Write") == old(ncalls("(*github.com/coder/websocket.Conn).Write")) + 1
 
 //@ objinv[C19.objinv] goat.GoatOverHttp : self.ctx != nil && self.conns.value != nil && self.onConnect != nil && self.sourceToAddress != nil && self.clock != nil && self.cancel != nil
